@@ -185,6 +185,20 @@ def impl_eval(rule_obj, what, inq_obj):
         return 'raise'
 
 
+def tower_twin(rng, v):
+    if isinstance(v, bool):
+        return int(v)
+    if isinstance(v, int):
+        return float(v) if abs(v) < 2 ** 50 else v
+    if isinstance(v, float) and v == int(v):
+        return int(v)
+    if isinstance(v, list) and v:
+        i = rng.randrange(len(v))
+        t = tower_twin(rng, v[i])
+        return v if t is v[i] else v[:i] + [t] + v[i + 1:]
+    return v
+
+
 PERTURB = ['zz', None, 0, [], {}, '10.0.0.1']
 
 TWINS = {'eq': 'ne', 'ne': 'eq', 'in': 'nin', 'nin': 'in', 'allin': 'allnin', 'allnin': 'allin',
@@ -273,6 +287,14 @@ def run(ctx):
         qline = proto.enc_inquiry_obj(iobj) if iobj is not None else '-'
         cases.append((rule, what, inq, 'EVAL %s %s %s' % (rline, wline, qline)))
         built.append((robj, iobj))
+        # the same rule right afterwards on an ==-equal value of another numeric type (1 / 1.0 / True)
+        twin = tower_twin(rng, what)
+        if twin is not what:
+            try:
+                cases.append((rule, twin, inq, 'EVAL %s %s %s' % (rline, proto.enc_value(twin), qline)))
+                built.append((proto.build_rule(rule), iobj))
+            except (TypeError, proto.ProtoError):
+                pass
     # the complete product: every leaf kind x an operand table (finite slice)
     table = [None, True, False, 0, 1, -1, 2, 1.0, 0.5, 2.0, '', 'a', 'A', 'ab', 'ß', 'İ', '10.0.0.1', [], [1], ['a'],
              [1, 'a'], [[1]], (), (1,), {}, {'name': 'a'}, [['a', 'a']], [('a', 'a')], ['aa'], [['a', 'b']], [[1, 1]],
